@@ -222,6 +222,9 @@ class _Ordered:
         return '_Ordered(%r)' % ([getattr(self, n) for n in self.dbusOrder],)
 
 
+LOOSE_BOOL = False      # set by C02 only: C01's equality claim is about bool values
+
+
 def py_input(ct, tv, rng, fds=None, in_variant=False, marshal_mod=None, plain=False):
     """
     Python object to hand to txdbus.marshal for typed value tv of type ct.
@@ -233,6 +236,9 @@ def py_input(ct, tv, rng, fds=None, in_variant=False, marshal_mod=None, plain=Fa
     c = ct[0]
     if c in 'ybnqiuxtdsog':
         if not in_variant:
+            if c == 'b' and LOOSE_BOOL and rng.random() < 0.3:
+                # callers hand truthy / falsy integers to a BOOLEAN (flags & 4, len(x)): the wire value is still 0 or 1
+                return rng.choice([2, 8, 255, 2 ** 31]) if tv else 0
             return tv
         if c == 'i':
             return tv if rng.random() < 0.8 else m.Int32(tv)
